@@ -78,7 +78,8 @@ class Driver:
 
     def set_version(self, v):
         torch = self.torch
-        self.params[0].tensor = torch.tensor([float(v), v + 0.5])
+        # versions alternate in length (a shorter file written after a longer one must not keep its tail)
+        self.params[0].tensor = torch.tensor([float(v), v + 0.5] + ([1.2345678901234] * 3 if v % 2 == 0 else []))
         self.params[1].tensor = torch.tensor([float(v)])
         if hasattr(self, "algo"):
             self.algo._epoch = v
@@ -172,7 +173,7 @@ def canon(files):
     key = []
     for p in sorted(cls):
         c = cls[p]
-        key.append((p, c[0], rank[c[1]] if c[0] == "ok" else (len(files[p]) > 0)))
+        key.append((p, c[0], (rank[c[1]], c[1] % 2) if c[0] == "ok" else (len(files[p]) > 0)))
     return tuple(key)
 
 
@@ -187,7 +188,7 @@ def do_save(driver, files, version, crash=None):
     with fs.mounted():
         try:
             driver.save(version)
-        except fsim.Crash:
+        except (fsim.Crash, KeyboardInterrupt):
             outcome = "crash"
         except fsim.Unsupported:
             raise
@@ -232,7 +233,7 @@ def check_transition(before, after, version, outcome):
 def crash_points(log):
     pts = []
     for i, op in enumerate(log):
-        for mode in ("keep", "drop", "half"):
+        for mode in ("keep", "drop", "half", "interrupt"):
             pts.append((i, mode))
         if op[0] == "write" and op[2] > 1:
             pts.append((i, "mid"))
@@ -271,6 +272,8 @@ def explore(kind, tier):
             stats["oplog"] = [list(map(str, op)) for op in log if op[0] != "write"]
         for crash in [None] + crash_points(log):
             after, log2, outcome = do_save(driver, files, version, crash)
+            if crash is None and outcome != "done":
+                raise RuntimeError(f"[{kind}] an uninterrupted save of v{version} did not complete: {outcome}")
             stats["transitions"] += 1
             stats["outcomes"].add(outcome.split(":")[0])
             h2 = hist + [[version, list(crash) if crash else None]]
@@ -394,7 +397,8 @@ def run(run):
         "exhaustive": exhaustive,
         "bound": f"closure of the state graph (cap {MAX_CONSECUTIVE} consecutive writes, "
                  f"hit: {not exhaustive}); crash before every file-system operation x "
-                 "{all issued bytes on disk, unflushed bytes lost, half of them lost} "
+                 "{all issued bytes on disk, unflushed bytes lost, half of them lost, death by KeyboardInterrupt "
+                 "(the writer's clean-up code still runs)} "
                  "+ in the middle of every write chunk",
         "per_driver": per,
         "checkpoint_all_crash_points": n_all,
